@@ -1523,7 +1523,225 @@ def prop_C03(ctx):
     return ctx.finish()
 
 
+# ---------------------------------------------------------------------------------------------- C11
+def split_top(s, sep=','):
+    out, depth, cur = [], 0, ''
+    for ch in s:
+        if ch in '<([{':
+            depth += 1
+        elif ch in '>)]}':
+            depth -= 1
+        if ch == sep and depth == 0:
+            out.append(cur)
+            cur = ''
+        else:
+            cur += ch
+    if cur:
+        out.append(cur)
+    return out
+
+
+def c11_problems(it, key, imp):
+    kind, fallible, cp, self_ty = key
+    meta = it.meta
+    probs = []
+    gens = [oracles.sval(x) for x in (oracles.node(imp, 'generics') or ['generics'])[1:]]
+    wheres = [oracles.sval(x) for x in (oracles.node(imp, 'where') or ['where'])[1:]]
+    own_lts = meta['lts']
+    m = re.search(r'<(.*)>$', cp)
+    cp_args = split_top(m.group(1)) if m else []
+    cp_lts = [a[1:] for a in cp_args if a.startswith("'")]
+    decl_names = []
+    for g in gens:
+        if g.startswith("'"):
+            decl_names.append(g.split(':')[0])
+        elif g.startswith('const'):
+            decl_names.append(re.match(r'const(\w+):', g).group(1))
+        else:
+            decl_names.append(re.match(r'(\w+)', g).group(1))
+    dups = sorted(set(x for x in decl_names if decl_names.count(x) > 1))
+    if dups:
+        probs.append('declared more than once on the impl: %s (impl generics %r)' % (dups, gens))
+    # the deriving type's parameters are declared (with their bounds, without defaults)
+    for d in meta['decl']:
+        d0 = oracles.nsp(d.split('=')[0])
+        if d0 not in [oracles.nsp(g) for g in gens]:
+            probs.append('parameter `%s` of the deriving type is not declared on the impl as written (impl generics %r)' % (d, gens))
+    # ... and applied in argument form
+    want_self = 'S' + (('<%s>' % ','.join(meta['names'])) if meta['names'] else '')
+    if self_ty != want_self:
+        probs.append('the deriving type is applied as `%s`, expected `%s`' % (self_ty, want_self))
+    # counterpart-only lifetimes are declared
+    for lt in cp_lts:
+        if "'" + lt not in decl_names:
+            probs.append("lifetime '%s of the counterpart path is not declared" % lt)
+    # by-reference conversions: 'o2o outlives the relevant lifetimes and is the lifetime of the borrow
+    is_ref = kind in ('from_ref', 'ref_into', 'ref_into_existing')
+    rel = own_lts if kind == 'from_ref' else (cp_lts if is_ref else [])
+    o2o = [g for g in gens if g.startswith("'o2o")]
+    if is_ref and rel:
+        want = "'o2o:" + '+'.join("'" + l for l in rel)
+        if [oracles.nsp(x) for x in o2o] != [want]:
+            probs.append("expected the fresh lifetime declaration `%s`, found %r" % (want, o2o))
+        tr = oracles.sval(imp[1])
+        sty = oracles.sval(imp[2])
+        borrowed = tr if kind == 'from_ref' else sty
+        if "&'o2o" not in borrowed:
+            probs.append("the borrow is not tied to 'o2o (%s)" % borrowed)
+    elif o2o:
+        probs.append("unexpected 'o2o declaration %r" % o2o)
+    # where clause: dedicated to the counterpart, else the default one
+    w = meta['where']
+    want_w = w.get(cp, w.get(None))
+    want_preds = [oracles.nsp(x) for x in split_top(want_w)] if want_w else []
+    if [oracles.nsp(x) for x in wheres] != want_preds:
+        probs.append('where clause: expected %r, found %r' % (want_preds, wheres))
+    return probs
+
+
+def obs_C11(s, rec=None):
+    c = vlib.outcome_class(s)
+    if c != 'ok':
+        return vlib.obs_msgs(s)
+    return ('ok', tuple(vlib.header_of(i) for i in vlib.split_impls(vlib.ok_tokens(s))))
+
+
+def prop_C11(ctx):
+    ctx.build()
+    q = ctx.tier == 'quick'
+    recs = ctx.run_set('generics', gen.c11_cases(ctx.rng, 5000 if q else 50000), obs_C11, sem=True)
+    n = 0
+    for r in recs:
+        if vlib.outcome_class(r['out']) != 'ok' or not r.get('sem'):
+            continue
+        for key, imp in oracles.sem_impls(r['sem']) or []:
+            if key is None:
+                continue
+            n += 1
+            for p in c11_problems(r['item'], key, imp):
+                ctx.report(r, 'impl (%s, fallible=%s, %s): %s' % (key[0], key[1], key[2], p), 'header facts read off the syn-parsed impl', key='header:' + p.split(' ')[0])
+    ctx.cov['impl_headers_checked'] = n
+    generic_sets(ctx, ['corpus', 'comp'], obs_C11)
+    return ctx.finish()
+
+
+# ---------------------------------------------------------------------------------------------- C17
+TRAIT_FN = {'::core::convert::From': ('from', False), '::core::convert::TryFrom': ('try_from', True), '::core::convert::Into': ('into', False),
+            '::core::convert::TryInto': ('try_into', True), 'o2o::traits::IntoExisting': ('into_existing', False),
+            'o2o::traits::TryIntoExisting': ('try_into_existing', True)}
+
+
+def shape_problems(shape):
+    t = oracles.sx(shape)
+    if not t:
+        return ['no output']
+    if t[0] == 'shape-parse-fail':
+        return ['the output is not a sequence of Rust items: ' + oracles.sval(t[1])[:200]]
+    probs = []
+    for item in t[1:]:
+        if not (isinstance(item, list) and item[0] == 'impl'):
+            probs.append('an item that is not an impl')
+            continue
+        tr = oracles.sval(item[1])
+        m = re.match(r'^(::core::convert::\w+|o2o::traits::\w+)<(.*)>$', tr, flags=re.S)
+        if not m or m.group(1) not in TRAIT_FN:
+            probs.append('implements `%s`, not one of the six conversion traits' % tr[:80])
+            continue
+        fname, fallible = TRAIT_FN[m.group(1)]
+        arg = m.group(2)
+        self_ty = oracles.sval(item[2])
+        fns = [x for x in item[3:] if isinstance(x, list) and x[0] == 'fn']
+        tys = [x for x in item[3:] if isinstance(x, list) and x[0] == 'type']
+        others = [x for x in item[3:] if isinstance(x, list) and x[0] == 'other-impl-item']
+        if len(fns) != 1 or others:
+            probs.append('%d methods / %d other items in the impl of %s' % (len(fns), len(others), m.group(1)))
+            continue
+        f = fns[0]
+        if f[1] != fname:
+            probs.append('the method of %s is called `%s`' % (m.group(1), f[1]))
+        has_err = [x for x in tys if x[1] == 'Error']
+        if fallible != bool(has_err) or len(tys) != len(has_err):
+            probs.append('`type Error` %s in the impl of %s' % ('missing' if fallible else 'present', m.group(1)))
+        err = oracles.sval(has_err[0][2]) if has_err else None
+        args = oracles.node(f, 'args')[1:]
+        ret = oracles.sval(oracles.node(f, 'ret')[1])
+        def res(t):
+            return '::core::result::Result<%s,%s>' % (t, err) if fallible else t
+        if fname in ('from', 'try_from'):
+            ok = len(args) == 1 and args[0][0] == 'arg' and oracles.sval(args[0][1]) == 'value' and oracles.sval(args[0][2]) == arg and ret == res(self_ty)
+        elif fname in ('into', 'try_into'):
+            ok = len(args) == 1 and args[0][0] == 'self' and args[0][1] == 'val' and ret == res(arg)
+        else:
+            ok = len(args) == 2 and args[0][0] == 'self' and args[0][1] == 'val' and args[1][0] == 'arg' and oracles.sval(args[1][1]) == 'other' \
+                and oracles.sval(args[1][2]) == '&mut' + arg and ret == (res('()') if fallible else '')
+        if not ok:
+            probs.append('the signature of %s is not the documented one: args %r ret %r' % (fname, args, ret))
+        for k in ('generics', 'asyncness', 'unsafety'):
+            n = oracles.node(f, k)
+            if n is not None and n[1] != '0':
+                probs.append('the method has %s' % k)
+    return probs
+
+
+def obs_shape(s, rec=None):
+    c = vlib.outcome_class(s)
+    if c != 'ok':
+        return vlib.obs_msgs(s)
+    sh = rec.get('shape') if s is rec.get('out') else rec.get('mshape')
+    return ('ok', sh)
+
+
+def c17_cell(it):
+    if it is None:
+        return None
+    tr = [a for a in it.attrs if isinstance(a, gen.Attr) and a.name in gen.TRAIT_NAMES]
+    if it.kind == 'enum' and any('existing' in a.name for a in tr):
+        return 'enum-into-existing'
+    # configurations whose instructions contradict the shape they are applied to (validation does not look at these)
+    if it.kind == 'struct' and it.shape == 'tuple' and any(a.name.startswith('ghosts') and '@' in (a.args or '') and re.search(r'@[a-z]', a.args) for a in it.attrs):
+        return 'incoherent-config'      # a named #[ghosts(p@name: ..)] entry inside a nested struct that a tuple struct renders in tuple form
+    bare_parent = any(a.name == 'parent' and (a.args is None or a.args == '') for m in it.members for a in getattr(m, 'attrs', []) if isinstance(a, gen.Attr))
+    if any(('..' in (getattr(a, 'params', '') or '')) and ('existing' in a.name or (getattr(a, 'hint', '') == 'as ()') or it.shape == 'tuple' or bare_parent) for a in tr):
+        return 'incoherent-config'      # `..update` on into_existing / on a tuple-form literal / on the assignment-style body a bare #[parent] forces
+    if it.kind == 'struct' and it.shape == 'tuple' and any(a.name == 'parent' and a.args and re.search(r'\b[a-z]\w*\b', re.sub(r'\b(parent|map)\b', '', a.args))
+                                                             for m in it.members for a in m.attrs if isinstance(a, gen.Attr)):
+        return 'incoherent-config'      # named sub-members of a parameterised #[parent] on a tuple struct
+    if it.kind == 'struct' and it.shape == 'named' and any(a.name == 'parent' and a.args and re.search(r'(^|[\s,\]])\d+\s*(,|$|:)', a.args)
+                                                             for m in it.members for a in m.attrs if isinstance(a, gen.Attr)):
+        return 'incoherent-config'      # positional sub-members of a parameterised #[parent] on a named struct
+    has_parent = any(a.name == 'parent' and (a.args is None or a.args == '') for m in it.members for a in getattr(m, 'attrs', []) if isinstance(a, gen.Attr))
+    if has_parent and any('return' in (getattr(a, 'params', '') or '') for a in tr):
+        return 'qret-parent'
+    return None
+
+
+def prop_C17(ctx):
+    ctx.build()
+    q = ctx.tier == 'quick'
+    k = 1 if q else 8
+    items = gen.c01_cases(ctx.rng, 1200 * k) + gen.c02_cases(ctx.rng, 1200 * k) + gen.c03_cases(ctx.rng, 1000 * k) + gen.c07_cases(ctx.rng, 800 * k) \
+        + gen.c08_cases(ctx.rng, 1200 * k) + gen.c09_cases(ctx.rng, 800 * k) + gen.c11_cases(ctx.rng, 800 * k) + gen.c17_enum_existing(ctx.rng, 60 * k)
+    recs = ctx.run_set('accepted_shapes', items, obs_shape, sem=True)
+    recs += ctx.run_set('grids', sample(ctx.rng, gen.grid_struct_lines(), 800 * k) + gen.grid_trait_instrs(), obs_shape, sem=True)
+    n = 0
+    for r in recs:
+        if vlib.outcome_class(r['out']) != 'ok':
+            continue
+        n += 1
+        probs = shape_problems(r.get('shape'))
+        if probs:
+            it = r.get('item')
+            if it is not None and it.meta.get('grid') == 'trait_instr' and str(it.meta.get('counterpart', '')).startswith('(') and it.kind == 'enum':
+                continue     # an enum mapped to a bare tuple: the counterpart cannot have variants; the embedded path is not well-formed
+            ctx.report(r, 'accepted input whose expansion is not a sequence of well-shaped impl items: ' + '; '.join(probs[:3]), 'syn::parse_str::<File> + per-item inspection',
+                       key=c17_cell(it) or 'shape')
+    ctx.cov['accepted_outputs_inspected'] = n
+    return ctx.finish()
+
+
 PROPS = {
+    'C17': prop_C17,
+    'C11': prop_C11,
     'C03': prop_C03,
     'C09': prop_C09,
     'C02': prop_C02,
